@@ -200,7 +200,72 @@ def monitor_routing(sess, extra):
 MONITORS = {"validation": monitor_validation, "routing": monitor_routing}
 
 
+PROBE_MAIN = """// generated by props/c15.py: can a PskBundle be brought into a lone-half state without going through `new`?
+use hpke::{aead::AesGcm128, kdf::HkdfSha256, kem::X25519HkdfSha256, Kem, OpModeS, PskBundle};
+use hpke::rand_core::{CryptoRng, RngCore};
+struct Z(u8);
+impl RngCore for Z {
+    fn next_u32(&mut self) -> u32 { self.0 = self.0.wrapping_add(1); self.0 as u32 }
+    fn next_u64(&mut self) -> u64 { self.next_u32() as u64 }
+    fn fill_bytes(&mut self, d: &mut [u8]) { for b in d.iter_mut() { *b = self.next_u32() as u8 } }
+}
+impl CryptoRng for Z {}
+fn main() {
+    let mut bundle = PskBundle::new(b"a pre-shared key of decent length", b"its identifier").unwrap();
+    @MUTATE@
+    println!("LONE_HALF_CONSTRUCTED");
+    let (_, pk) = X25519HkdfSha256::derive_keypair(b"0123456789abcdef0123456789abcdef");
+    let r = hpke::setup_sender::<AesGcm128, HkdfSha256, X25519HkdfSha256, _>(&OpModeS::Psk(bundle), &pk, b"", &mut Z(0));
+    println!("SETUP_{}", if r.is_ok() { "ACCEPTED" } else { "REJECTED" });
+}
+"""
+
+
+def constructibility_probe(env):
+    """'can be constructed exactly when ...': `PskBundle::new` is judged by the validation workload; here the compiled
+    crate's surface is asked (rustdoc JSON) whether a bundle can be put into another state afterwards - through a
+    public field - and if so a program that empties one half is compiled and run."""
+    import os
+    import subprocess
+    from lib import apisurface
+    d, why = apisurface.rustdoc_json()
+    if d is None:
+        env.note("PskBundle surface not inspected: %s" % why)
+        env.extra_cov["pskbundle_surface"] = {"inspected": False, "why": why[:200]}
+        return
+    fields, hidden = apisurface.struct_fields(d, "PskBundle")
+    pub = [f for f, p in (fields or []) if p]
+    methods = [f for f in apisurface.surface(d) if f.startswith("method PskBundle::")]
+    env.extra_cov["pskbundle_surface"] = {"inspected": True, "public_fields": pub, "has_private_fields": bool(hidden), "inherent_methods": methods}
+    env.count("evaluations", 1)
+    if fields is None:
+        env.inconclusive.append("PskBundle not found in the crate's documented surface")
+        return
+    for f in pub:
+        cdir = os.path.join(env.work, "pskfields")
+        os.makedirs(os.path.join(cdir, "src"), exist_ok=True)
+        with open(os.path.join(cdir, "Cargo.toml.in"), "w") as fh:
+            fh.write('[package]\nname = "hpke-verif-probe-pskfields"\nversion = "0.0.0"\nedition = "2021"\npublish = false\n\n[dependencies]\n'
+                     'hpke = { path = "@REPO@", default-features = false, features = ["alloc", "x25519"] }\n\n[workspace]\n')
+        built = False
+        for mut in ("bundle.%s = b\"\";" % f, "bundle.%s = &[];" % f, "bundle.%s = Default::default();" % f):
+            with open(os.path.join(cdir, "src", "main.rs"), "w") as fh:
+                fh.write(PROBE_MAIN.replace("@MUTATE@", mut))
+            fw.prepare_crate(cdir)
+            p = subprocess.run(["cargo", "run", "--offline", "--target-dir", os.path.join(fw.VERIF, "target", "probe")], cwd=cdir, env=dict(fw.BASE_ENV),
+                               stdout=subprocess.PIPE, stderr=subprocess.STDOUT, text=True, timeout=1800)
+            if "LONE_HALF_CONSTRUCTED" in p.stdout:
+                built = True
+                env.violation("C15:lone_half_constructible:field:%s" % f,
+                              "PskBundle's field `%s` is public: `%s` on a valid bundle compiles and runs, giving a bundle with a lone half that never met InvalidPskBundle (%s)" % (
+                                  f, mut, "setup accepted it" if "SETUP_ACCEPTED" in p.stdout else "setup rejected it later"), workload="validation")
+                break
+        if not built:
+            env.note("PskBundle has a public field `%s` but no probe program emptied it (type not a byte slice?)" % f)
+
+
 def run(env):
+    constructibility_probe(env)
     res = env.drive("validation", build_validation(env, env.pick(3, 40)).text())
     env.require_complete(res, "validation")
     env.pmap(monitor_validation, res.sessions, workload="validation")
